@@ -397,6 +397,7 @@ func lengthClass(v ssa.Value, depth int) string {
 	if depth > 6 {
 		return ""
 	}
+	v = resolveParam(v)
 	switch x := v.(type) {
 	case *ssa.Call:
 		if arg, ok := lenArg(x); ok {
@@ -687,7 +688,7 @@ func ruleStackClass(w *World, r *Report) {
 		}
 		// the stack: the []Value phi/alloc indexed by osTop; find allocations of []Value / [N]Value
 		var classes []string
-		EachInstr(fn, func(in ssa.Instruction) {
+		EachInstrDeep(fn, func(in ssa.Instruction) {
 			var n int64 = -1
 			sizeDesc := ""
 			var v ssa.Value
@@ -731,7 +732,7 @@ func ruleStackClass(w *World, r *Report) {
 				if !ok {
 					continue
 				}
-				if _, okf := loadOfField(bo.X, "Expr", "maxStackSize"); !okf {
+				if _, okf := loadOfFieldR(bo.X, "Expr", "maxStackSize"); !okf {
 					continue
 				}
 				c, okc := constInt(bo.Y)
